@@ -10,7 +10,8 @@ THEOREMS = ["C08_count_within_bound", "C08_large_group_passes", "C08_noise_off_f
             "C10_microdata_rows", "C12_patch", "C18_outlier_keeps_ranges", "C18_tree_invariant", "C18_rows_partitioned", "C18_forest_trees1", "C18_forest_tree",
             "C10_forest_harvest_conservation", "C08_materialize_rows", "C10_harvest_conservation_strong", "forest_tree_matchingRows", "forest_root_unique",
             "C08_single_cluster_rows", "C08_synthesize_single_rows", "fitTable_size",
-            "buildTable_rows", "doStitch_rows", "materializeGM_tree", "C08_patched_table_rows"]
+            "buildTable_rows", "doStitch_rows", "materializeGM_tree", "C08_patched_table_rows",
+            "noClusteringPlan_patched", "C08_synthesize_patched_rows", "C08_synthesize_noClustering_rows"]
 PARTIAL = ["end to end for one cluster (C08_single_cluster_rows): for a table of N rows with one non-null entity id per row, Forest.init -> tree of any column "
            "combination -> harvest -> microdata yields between N-1-(17 sd+1/2) and N+17 sd+1/2 rows, and none only if N < low_threshold+(gap+8.5) layer_sd - "
            "one theorem from the input table to the row list (exact arithmetic, deviates bounded by 8.5, low_threshold >= 2); composed through build_table for per-column patching (NoClustering) and left-owned stitching: C08_patched_table_rows (the assembled table has the rows of the "
